@@ -351,6 +351,18 @@ impl<'a> crate::fdl::FdlApplication for DpMaster<'a> {
                             };
                             return None;
                         }
+
+                        if peripheral_event.is_some() {
+                            // Only one peripheral event can be reported per call, so end our turn
+                            // here.  The cycle continues with the next peripheral the next time
+                            // we are called.  (Otherwise a second peripheral going offline in the
+                            // same call would trip the assertion above.)
+                            self.state.last_events = DpEvents {
+                                cycle_completed: false,
+                                peripheral: peripheral_event,
+                            };
+                            return None;
+                        }
                     }
                 }
             } else {
